@@ -108,6 +108,11 @@ func (dr *DecodingReader) Read(p []byte) (int, error) {
 		v, err := dr.input.Read(p[n:])
 		n += v
 		if err != nil {
+			// a reader may return its final bytes together with io.EOF:
+			// that is not an error when the request was satisfied
+			if err == io.EOF && n == len(p) {
+				return n, nil
+			}
 			return n, err
 		}
 	}
